@@ -1,6 +1,7 @@
 package main
 
 import (
+	"strconv"
 	"encoding/json"
 	"flag"
 	"fmt"
@@ -251,6 +252,70 @@ func cmdCheck(args []string) int {
 					}
 				}
 			}
+			// loop-local: without the invariants of the loops this obligation does not belong to (what a later
+			// part of the function needs from an earlier loop is normally restated by a cut assertion or by the
+			// enclosing loop's own invariant); fewer assumptions, so a proof of this variant is a proof.
+			// Second round: the most recent loop is kept as well, for the code that follows a loop.
+			loopLocal := func(early bool) {
+				if o.Result.Verdict == "unsat" || o.Expect != "unsat" || !strings.Contains(o.Query, " ; @loop:") {
+					return
+				}
+				last := -1
+				for _, l := range strings.Split(o.Query, "\n") {
+					if k := strings.LastIndex(l, " ; @loop:"); k > 0 {
+						if n, err := strconv.Atoi(strings.TrimSpace(l[k+len(" ; @loop:"):])); err == nil && n > last {
+							last = n
+						}
+					}
+				}
+				type attempt struct {
+					keepLast, dropLets bool
+				}
+				ats := []attempt{{false, false}, {false, true}, {true, false}, {true, true}}
+				budget := 8 * time.Second
+				if early {
+					ats, budget = ats[:2], 5*time.Second
+				}
+				for ai, at := range ats {
+					var sb strings.Builder
+					dropped := false
+					for _, l := range strings.Split(o.Query, "\n") {
+						if k := strings.LastIndex(l, " ; @loop:"); k > 0 {
+							n, _ := strconv.Atoi(strings.TrimSpace(l[k+len(" ; @loop:"):]))
+							mine := at.keepLast && n == last
+							for _, m := range o.InLoops {
+								if m == n {
+									mine = true
+								}
+							}
+							if !mine {
+								dropped = true
+								continue
+							}
+						}
+						if at.dropLets && strings.HasPrefix(l, "(assert (= let_") {
+							continue
+						}
+						sb.WriteString(l + "\n")
+					}
+					if !dropped {
+						return
+					}
+					if at.keepLast {
+						for _, m := range o.InLoops {
+							if m == last {
+								return
+							}
+						}
+					}
+					r := Solve(sb.String(), smtDir, fmt.Sprintf("o%04d_%d%v_%s", i, ai, early, sanitize(o.Name)), budget, true)
+					if r.Verdict == "unsat" {
+						r.Solver += "/loop-local"
+						o.Result = r
+						return
+					}
+				}
+			}
 			if o.Result.Verdict != "unsat" && o.Expect == "unsat" && o.QueryInst != "" {
 				r := Solve(o.QueryInst, smtDir, fmt.Sprintf("i%04d_%s", i, sanitize(o.Name)), 8*time.Second, true)
 				if r.Verdict == "unsat" {
@@ -259,8 +324,9 @@ func cmdCheck(args []string) int {
 				}
 			}
 			triedQuick := false
-			if o.Result.Verdict != "unsat" && o.Expect == "unsat" && strings.Contains(o.Query, "\n(assert (= let_") {
+			if o.Result.Verdict != "unsat" && o.Expect == "unsat" && (strings.Contains(o.Query, "\n(assert (= let_") || (len(o.InLoops) > 0 && strings.Contains(o.Query, " ; @loop:"))) {
 				// a short attempt on the full query first: most obligations need the let definitions
+				// (and most loop obligations go through as they are)
 				triedQuick = true
 				r := Solve(o.Query, smtDir, fmt.Sprintf("q%04d_%s", i, sanitize(o.Name)), 4*time.Second, true)
 				if r.Verdict == "unsat" {
@@ -268,6 +334,9 @@ func cmdCheck(args []string) int {
 				}
 			}
 			_ = triedQuick
+			if len(o.InLoops) > 0 {
+				loopLocal(true)
+			}
 			if o.Result.Verdict != "unsat" && o.Expect == "unsat" && strings.Contains(o.Query, "\n(assert (= let_") {
 				// contract lets kept opaque: the definitions of the let constants are dropped (fewer
 				// assumptions, so a proof of this variant is a proof of the obligation)
@@ -286,6 +355,13 @@ func cmdCheck(args []string) int {
 			}
 			if o.Result.Verdict != "unsat" {
 				o.Result = Solve(o.Query, smtDir, fmt.Sprintf("q%04d_%s", i, sanitize(o.Name)), to, o.Expect != "sat")
+			}
+			if o.Result.Verdict != "unsat" && o.Result.Verdict != "sat" {
+				full := o.Result
+				loopLocal(false)
+				if o.Result.Verdict != "unsat" {
+					o.Result = full
+				}
 			}
 			switch {
 			case o.Expect == "unsat" && o.Result.Verdict == "unsat":
